@@ -28,6 +28,8 @@ def gen_cases(seed, tier, n):
         c = tracegen.gen_case(seed, i, tracegen.PROFILES[profs[i % len(profs)]])
         rng = random.Random(seed * 7919 + i)
         c["params"] = {"numk": rng.choice([1, 1, 2, 2, 3, 4, 5, 8, 12]), "k16": rng.randint(1, 16), "mem": rng.random() < 0.5}
+        if i % 3 == 1:
+            tracegen.relabel_ranks(c)      # a subset of a job: rank ids are not 0..n-1, and not listed in order
         out.append(c)
     return out
 
